@@ -272,7 +272,7 @@ def check(model, rep):
     gq, sq = M('getQuat'), M('setQuat')
     r = returns_of(gq)
     g_ok = bool(r) and src(r[0].value).replace(' ', '') == 'R.from_matrix(self.TM[0:3,0:3]).as_quat()'
-    st = [x for x in walk_own(sq.node) if isinstance(x, ast.Assign)]
+    st = [x for x in walk_own(sq.node) if isinstance(x, ast.Assign) and src(x.targets[0]).startswith('self.')]
     s_ok = len(st) == 1 and src(st[0].targets[0]).replace(' ', '') == 'self.TM[0:3,0:3]' and \
         src(st[0].value).replace(' ', '') == 'R.from_quat(%s).as_matrix()' % sq.params[1]
     sync = any(isinstance(c, ast.Call) and src(c.func) == 'self.TMtoTAA' for c in walk_own(sq.node))
